@@ -473,6 +473,113 @@ theorem noninterference_form (root : Str) (pre post : List RK) (r r' : RK) (hs :
     noninterference root _ [] pre post r r' hs es es' x x' hw hw' hx hx'
   exact ⟨a, m, m', b ++ y, by simp, by simp, h1, h2⟩
 
+/-! ## the `bind::x` / `bind : x` / `bind:x` spellings, for every attribute name -/
+
+theorem columns_colon_free : surveyColumns.all (fun c => !c.contains ':') = true := by decide +kernel
+theorem bind_is_column : surveyColumns.contains "bind".toList = true := by decide +kernel
+theorem bind_is_no_alias : lookup "bind".toList surveyAliases = none := by decide +kernel
+theorem snake_jr_ne_bind : toSnakeCase "jr".toList ≠ "bind".toList := by decide +kernel
+
+/-- a header that contains a colon is not caught by the two "already a column" shortcuts -/
+theorem colon_header_not_column (h : Str) (hm : ':' ∈ h) :
+    (surveyColumns.contains h && (lookup h surveyAliases).isNone) = false ∧
+    (surveyColumns.contains (toSnakeCase h) && (lookup (toSnakeCase h) surveyAliases).isNone) = false := by
+  have key : ∀ x : Str, ':' ∈ x → surveyColumns.contains x = false := by
+    intro x hx
+    cases hc : surveyColumns.contains x with
+    | false => rfl
+    | true =>
+      have := List.all_eq_true.mp columns_colon_free x (List.contains_iff_mem.mp hc)
+      simp only [Bool.not_eq_true', List.contains_eq_mem, decide_eq_false_iff_not] at this
+      exact absurd hx this
+  have hs : ':' ∈ toSnakeCase h := mem_toSnakeCase ':' h hm (by decide) (by decide)
+  rw [key h hm, key _ hs]
+  exact ⟨rfl, rfl⟩
+
+/-- **header_bind_double.**  `<bind> :: <attr>` — the word `bind` in any case with any spacing, the
+    delimiter `::`, then *any* attribute text without `::` (it may contain single colons:
+    `jr:constraintMsg`, `odk:length`) with any surrounding spaces — is mapped to `(bind, strip attr)`,
+    whether or not other headers of the sheet use `::`. -/
+theorem header_bind_double (udc : Bool) (pre a : Str)
+    (hp : ∀ c ∈ pre, c ≠ ':') (hb : toSnakeCase pre = "bind".toList)
+    (ha : isInfix "::".toList a = false) :
+    processHeader udc surveyAliases surveyColumns (pre ++ ':' :: ':' :: a) =
+      some (.str "bind".toList, ["bind".toList, strip a]) := by
+  have hm : ':' ∈ pre ++ ':' :: ':' :: a := by simp
+  obtain ⟨b1, b2⟩ := colon_header_not_column _ hm
+  unfold processHeader
+  rw [b1]
+  simp only [Bool.false_eq_true, if_false]
+  rw [b2]
+  simp only [Bool.false_eq_true, if_false]
+  rw [isInfix_dcolon_prefix, Bool.or_true]
+  simp only [if_true, splitOn2_prefix a pre hp, splitOn2_of_noDouble a ha, List.map_cons, List.map_nil,
+    toSnakeCase_strip, hb, bind_is_no_alias, bind_is_column]
+
+/-- **header_bind_single.**  The deprecated single-colon spelling `<bind> : <attr>` (no `::` anywhere in
+    the header row, attribute text without colon and not the bare token `jr`) is mapped to
+    `(bind, strip attr)` as well. -/
+theorem header_bind_single (pre a : Str)
+    (hp : ∀ c ∈ pre, c ≠ ':') (hb : toSnakeCase pre = "bind".toList)
+    (ha : ∀ c ∈ a, c ≠ ':') (hj : strip a ≠ "jr".toList) :
+    processHeader false surveyAliases surveyColumns (pre ++ ':' :: a) =
+      some (.str "bind".toList, ["bind".toList, strip a]) := by
+  have hm : ':' ∈ pre ++ ':' :: a := by simp
+  obtain ⟨b1, b2⟩ := colon_header_not_column _ hm
+  have hpj : strip pre ≠ "jr".toList := by
+    intro e
+    have : toSnakeCase pre = toSnakeCase "jr".toList := by rw [← toSnakeCase_strip, e]
+    rw [hb] at this
+    exact snake_jr_ne_bind this.symm
+  unfold processHeader
+  rw [b1]
+  simp only [Bool.false_eq_true, if_false]
+  rw [b2]
+  simp only [Bool.false_eq_true, if_false]
+  rw [isInfix_dcolon_single a ha pre hp]
+  simp only [Bool.or_false, Bool.false_eq_true, if_false, splitOnChar_prefix a ha pre hp, List.map_cons, List.map_nil]
+  have hjr : jrFix [strip pre, strip a] = some [strip pre, strip a] := by
+    unfold jrFix
+    rw [if_neg hpj]
+    unfold jrFix
+    rw [if_neg hj]
+    rfl
+  rw [hjr]
+  simp only [toSnakeCase_strip, hb, bind_is_no_alias, bind_is_column, if_true]
+
+/-! ## noninterference on raw cells -/
+
+/-- `c'` is an edit of the raw row `c` that keeps its place in the structure: whatever the row number
+    and `table_list` state, both rows classify to a single row of the same shape (same kind, same
+    names) and leave the same state behind — e.g. the same row with other logic cells. -/
+def SameShapeEdit (dl : Str) (key : List (Str × List Str)) (lists : List Str) (c c' : List (Str × Str)) : Prop :=
+  ∀ n tl kc tl2, rowRKs dl key lists n tl c = .ok (kc, tl2) →
+    ∃ r r', kc = [r] ∧ rowRKs dl key lists n tl c' = .ok ([r'], tl2) ∧ sameShape r r'
+
+/-- **noninterference_cells.**  From the raw sheet: replace the cells of row `j` (= `c`, after `pre`) by
+    `c'` (a same-shape edit).  If both sheets convert, their bind lists are `a ++ m ++ b` and
+    `a ++ m' ++ b`: every bind that does not belong to row `j` is identical, attribute for attribute. -/
+theorem noninterference_cells (root dl : Str) (key : List (Str × List Str)) (lists : List Str)
+    (pre post : List (List (Str × Str))) (c c' : List (Str × Str)) (he : SameShapeEdit dl key lists c c')
+    (ks ks' : List RK) (bs bs' : List Bind)
+    (hk : processRows dl key lists 2 .off (pre ++ c :: post) = .ok ks)
+    (hk' : processRows dl key lists 2 .off (pre ++ c' :: post) = .ok ks')
+    (hb : bindsOfRows root ks = .ok bs) (hb' : bindsOfRows root ks' = .ok bs') :
+    ∃ a m m' b r, bs = a ++ m ++ b ∧ bs' = a ++ m' ++ b ∧
+      (∃ n tl tl2, rowRKs dl key lists n tl c = .ok ([r], tl2)) ∧
+      m.length ≤ (rkNames r).length ∧ m'.length ≤ (rkNames r).length := by
+  obtain ⟨kpre, kc, kpost, tl1, tl2, hc, hks, hall⟩ := processRows_frame dl key lists pre 2 .off c post ks hk
+  obtain ⟨r, r', hkc, hc', hs⟩ := he _ _ _ _ hc
+  have h2 := hall c' [r'] hc'
+  rw [hk'] at h2
+  simp only [Except.ok.injEq] at h2
+  subst hkc
+  subst hks
+  subst h2
+  simp only [List.append_assoc, List.singleton_append] at hb hb'
+  obtain ⟨a, m, m', b, e1, e2, l1, l2⟩ := noninterference_form root kpre kpost r r' hs bs bs' hb hb'
+  exact ⟨a, m, m', b, r, e1, e2, ⟨_, _, _, hc⟩, l1, l2⟩
+
 /-! ## parameter-derived data type of `range` -/
 
 /-- **range_decimal_iff.**  A `range` row gets `type = decimal` iff *some* parameter — written in any
@@ -541,6 +648,26 @@ example : (paramBind (s "range") [(s "start", s "0.5"), (s "end", s "9.5"), (s "
     (paramBind (s "range") [(s "step", s "0.25")]).toOption = some [(s "type", .s (s "decimal"))] ∧
     (paramBind (s "range") [(s "start", s "0.0"), (s "end", s "5")]).toOption = some [] ∧
     parseParams (s "end=7.5;start=1") = some [(s "end", s "7.5"), (s "start", s "1")] := by
+  decide +kernel
+
+/-- `header_bind_double` / `header_bind_single`: concrete spellings -/
+example : (∀ c ∈ s " BIND ", c ≠ ':') ∧ toSnakeCase (s " BIND ") = s "bind" ∧
+    isInfix (s "::") (s "  jr:constraintMsg ") = false ∧ strip (s "  jr:constraintMsg ") = s "jr:constraintMsg" := by
+  decide +kernel
+
+example : processHeader false surveyAliases surveyColumns (s "Bind : foo ") = some (.str (s "bind"), [s "bind", s "foo"]) := by
+  decide +kernel
+
+/-- `noninterference_cells`: a row and the same row with another `relevant` cell classify to single rows
+    of the same shape, from the same state to the same state -/
+example :
+    (match headerKey [s "type", s "name", s "relevant"] with
+     | .ok key =>
+       (match rowRKs (s "default") key [] 2 .off [(s "type", s "text"), (s "name", s "q"), (s "relevant", s ". > 1")],
+              rowRKs (s "default") key [] 2 .off [(s "type", s "text"), (s "name", s "q"), (s "relevant", s "1 = 1")] with
+        | .ok ([.qs [q1]], .off), .ok ([.qs [q2]], .off) => q1.name == q2.name && q1.name == s "q"
+        | _, _ => false)
+     | _ => false) = true := by
   decide +kernel
 
 /-- `header_to_bind`: a spelling with case and spacing noise -/
